@@ -1,4 +1,5 @@
 SPECIFICATION ASpec
 CONSTANTS Walks <- WalksT  MaxEdits = 2  MaxSlice = 6
 INVARIANT GeneratedValid
+INVARIANT RunWiseAgrees
 CHECK_DEADLOCK FALSE
